@@ -6,7 +6,9 @@ package main
 
 import (
 	"fmt"
+	"math"
 	"math/big"
+	"math/bits"
 	"time"
 
 	"github.com/db47h/decimal"
@@ -1034,6 +1036,139 @@ func arithLayers(j judge, tier string) []Layer {
 								}
 								x, y := xo.Build(), yo.Build()
 								binSweep(c, j, []int{pr.op}, xo, yo, x, y, []uint32{1, 2, 3, 7, 8}, M6)
+							}
+						}
+					}
+				}
+			},
+		})
+	}
+	// L15: products at the range ends whose leading digit is decided by the low words: mantissa products
+	// just below / exactly / just above 0.1, exponent sums MinExp−1 … MinExp+1 and MaxExp … MaxExp+1
+	{
+		cps := [][2]string{
+			{"33333333333333333334", "3"}, {"33333333333333333333", "3"}, {"333333333333333333333333333333333333333334", "3"}, {"333333333333333333333333333333333333333333", "3"},
+			{"31622776601683793319988935444327185338", "31622776601683793319988935444327185338"}, {"31622776601683793319988935444327185337", "31622776601683793319988935444327185337"},
+			{"3162277660168379332", "3162277660168379332"}, {"3162277660168379331", "3162277660168379332"},
+			{"5", "2"}, {"25", "4"}, {"125", "8"}, {"2", "49999999999999999999999999999999999999"}, {"2", "50000000000000000000000000000000000001"},
+			{"99999999999999999999", "99999999999999999999"}, {"1", "1"}, {"10000000000000000001", "99999999999999999999"}, {"7", "142857142857142857142857142858"},
+		}
+		sums := []int64{MinExp - 1, MinExp, MinExp + 1, MinExp + 2, MaxExp - 1, MaxExp, MaxExp + 1}
+		layers = append(layers, Layer{
+			Name:   "L15-range-ends-multiword-products",
+			Units:  len(cps) * len(sums),
+			Bounds: fmt.Sprintf("Mul of 0.cx×10^ex by 0.cy×10^ey for %d coefficient pairs whose mantissa product is just below / exactly / just above 0.1 (or just below 1), ex+ey in {MinExp−1, MinExp, MinExp+1, MinExp+2, MaxExp−1, MaxExp, MaxExp+1} split three ways (one operand near the end, both near half of it), ±, precision {1,19,20,38,40}, 6 modes", len(cps)),
+			Run: func(c *Ctx, u int) {
+				cp, sum := cps[u/len(sums)], sums[u%len(sums)]
+				for _, ex := range []int64{sum / 2, sum + 5, -7} {
+					ey := sum - ex
+					if ex < MinExp || ex > MaxExp || ey < MinExp || ey > MaxExp {
+						continue
+					}
+					for _, sx := range []bool{false, true} {
+						for _, sy := range []bool{false, true} {
+							if c.Done() {
+								return
+							}
+							xo := mkCoef(sx, mustInt(cp[0]), 0, 0, 0)
+							xo.Exp, xo.V.E10 = ex, ex-int64(len(xo.Words))*DW
+							yo := mkCoef(sy, mustInt(cp[1]), 0, 0, 0)
+							yo.Exp, yo.V.E10 = ey, ey-int64(len(yo.Words))*DW
+							x, y := xo.Build(), yo.Build()
+							binSweep(c, j, []int{opMul}, xo, yo, x, y, []uint32{1, 19, 20, 38, 40}, M6)
+							binSweep(c, j, []int{opMul}, yo, xo, y, x, []uint32{1, 19, 20, 38, 40}, M6)
+						}
+					}
+				}
+			},
+		})
+	}
+	// L17: SetPrec with requests beyond MaxPrec (documented: set to MaxPrec), also requests that are
+	// small again modulo 2^32
+	if bits.UintSize == 64 {
+		one := uint(1)
+		reqs := []uint{math.MaxUint32 - 1, math.MaxUint32, one << 32, one<<32 + 1, one<<32 + 7, one<<32 + 34, one << 33, one<<40 + 34, one << 63, ^uint(0), ^uint(0) - (one << 32) + 1 + 7}
+		layers = append(layers, Layer{
+			Name:   "L17-SetPrec-requests-beyond-MaxPrec",
+			Units:  len(reqs),
+			Bounds: fmt.Sprintf("z.SetPrec(p) for p in %d requests (MaxPrec−1, MaxPrec, 2^32, 2^32+1, 2^32+7, 2^32+34, 2^33, 2^40+34, 2^63, MaxUint, …) on z in {zero value, +0 of precision 7, 12345 at precision 7 and 34, −Inf of precision 34}, 6 modes: Prec() = min(p, MaxPrec), value and mode kept, accuracy Exact", len(reqs)),
+			Run: func(c *Ctx, u int) {
+				p := reqs[u]
+				want := uint32(math.MaxUint32)
+				if p < math.MaxUint32 {
+					want = uint32(p)
+				}
+				for _, m := range M6 {
+					for k := 0; k < 5; k++ {
+						if c.Skip() {
+							continue
+						}
+						c.NonTrivial()
+						var z *Dec
+						switch k {
+						case 0:
+							z = new(Dec).SetMode(decimal.RoundingMode(m))
+						case 1:
+							z = fresh(7, m)
+						case 2:
+							z = mkInt64(12345, 0, 7, m).Build()
+						case 3:
+							z = mkInt64(-12345, -2, 34, m).Build()
+						case 4:
+							z = mkSpecial(fInf, true, 34, m).Build()
+						}
+						before := Observe(z)
+						pv, _ := protect(func() { z.SetPrec(p) })
+						key := fmt.Sprintf("SetPrec(%d) on %s mode=%s", p, before, modeName(m))
+						if pv != nil {
+							c.Fail(key, fmt.Sprintf("panic: %v", pv))
+							continue
+						}
+						o := Observe(z)
+						if o.Prec != want || o.Mode != m || o.Acc != 0 || o.Form != before.Form || o.Neg != before.Neg || (o.Form == fFinite && !o.Val().Equal(before.Val())) {
+							c.Fail(key, fmt.Sprintf("got %s, want the same value with precision %d, mode kept, accuracy Exact", o, want))
+						}
+					}
+				}
+			},
+		})
+	}
+	// L16: the discarded words are words at the binary boundaries of the registers, in pairs (a scan of
+	// the discarded part that adds or combines words must not wrap to "nothing discarded")
+	{
+		ws := append([]uint64{0}, Sbin...)
+		layers = append(layers, Layer{
+			Name:   "L16-binary-boundary-words-below-the-rounding-digit",
+			Units:  len(ws),
+			Bounds: fmt.Sprintf("x = [b, a, r, t] and [c, b, a, r, t] (little-endian): top word t (last digit even/odd), rounding word r in {0, 5·10^18}, discarded words a, b, c over %d words at the binary boundaries (2^63, 2^64−10^19, 2^32, …) and 0; Set / SetPrec / Add(x,+0) / Mul(x,1) to precision 19 and 20, 6 modes", len(ws)),
+			Run: func(c *Ctx, u int) {
+				a := ws[u]
+				one := mkInt64(1, 0, 5, 0)
+				zero := mkSpecial(fZero, false, 5, 0)
+				for _, b := range ws {
+					for ci := -1; ci < len(ws); ci += 3 {
+						for _, rw := range []uint64{0, BW / 2} {
+							for _, last := range []uint64{BW/10 + 2, BW/10 + 3} {
+								if c.Done() {
+									return
+								}
+								w := []uint64{b, a, rw, last}
+								if ci >= 0 {
+									w = append([]uint64{ws[ci]}, w...)
+								}
+								if a == 0 && b == 0 && (ci < 0 || ws[ci] == 0) && rw == 0 {
+									continue
+								}
+								xo := mkWords(ci%2 == 0, w, 3, 0, ToNearestAway)
+								x := xo.Build()
+								for _, p := range []uint32{19, 20} {
+									for _, m := range M6 {
+										unaryCase(c, j, opSet, xo, p, m)
+										unaryCase(c, j, opSetPrec, xo, p, m)
+									}
+								}
+								binSweep(c, j, []int{opAdd}, xo, zero, x, zero.Build(), []uint32{19, 20}, M6)
+								binSweep(c, j, []int{opMul}, xo, one, x, one.Build(), []uint32{19}, M6)
 							}
 						}
 					}
